@@ -445,6 +445,32 @@ def exec_tg(case):
             V.append(Violation("tg_completion_time", f"TaskGraph.completion_time={got} expected {exp}; case={case}", "taskgraph.completion_time"))
     except Exception as e:
         V.append(Violation("taskgraph_raises", f"{type(e).__name__}: {e}; case={case}", f"taskgraph.raises.{type(e).__name__}"))
+    # a TaskGraph that grows task by task (TaskGraph.add_task, as its docstring describes for later timestamps), queried
+    # after every addition: sources, sinks and completion are those of the graph as it is now
+    if not V:
+        try:
+            tasks2 = [Task(name=f"j{i}", task_graph="TG2", job=jobs[i], deadline=EventTime(1000, EventTime.Unit.US),
+                           release_time=EventTime(0, EventTime.Unit.US), completion_time=EventTime.invalid()) for i in range(n)]
+            tg2 = TaskGraph(name="TG2", tasks={})
+            present, cur_edges = set(), set()
+            for i in order:
+                tg2.add_task(tasks2[i], [tasks2[c] for c in ch[i]])
+                present |= {i} | set(ch[i])
+                cur_edges |= {(i, c) for c in ch[i]}
+                exp_snk = sorted(u for u in present if not any(a == u for a, _b in cur_edges))
+                exp_src = sorted(u for u in present if not any(b == u for _a, b in cur_edges))
+                snk = sorted(int(t.name[1:]) for t in tg2.get_sink_tasks())
+                src = sorted(int(t.name[1:]) for t in tg2.get_source_tasks())
+                if snk != exp_snk or src != exp_src:
+                    V.append(Violation("growing_taskgraph", f"after add_task(j{i}): sinks {snk} (expected {exp_snk}), sources {src} (expected {exp_src}); case={case}",
+                                       "taskgraph.after_growth.sources_or_sinks"))
+                    break
+                if tg2.is_complete() or tg2.is_cancelled():
+                    V.append(Violation("growing_taskgraph", f"after add_task(j{i}): a graph of VIRTUAL tasks is reported complete/cancelled; case={case}",
+                                       "taskgraph.after_growth.complete"))
+                    break
+        except Exception as e:
+            V.append(Violation("taskgraph_raises", f"growing graph: {type(e).__name__}: {e}; case={case}", f"taskgraph.after_growth.raises.{type(e).__name__}"))
     res.nontrivial = nontrivial(n, edges, paths, [w])
     res.classes.append("tg_jg")
     return res
